@@ -108,7 +108,10 @@ def constraint_cost(ftype, cons, p):
         else:
             k = len(d["values"])
             r = np.asarray(p[:k], dtype=float) - np.asarray(d["values"])
-            c += float(r @ np.linalg.solve(np.asarray(d["cov"]), r))
+            cov = np.asarray(d["cov"], dtype=float)
+            if d.get("relative"):
+                cov = cov * np.outer(d["values"], d["values"])
+            c += float(r @ np.linalg.solve(cov, r))
     return c
 
 
